@@ -122,30 +122,45 @@ class JSONPathRecursiveDescentSegment(JSONPathSegment):
             # Randomly choose to visit child nodes now or queue them for later?
             visit_children = random.choice([True, False])  # noqa: S311
 
-            for child in _nondeterministic_children(node):
-                if visit_children:
-                    self._check_depth(child, depth + 1)
-                    yield child
+            children = list(_nondeterministic_children(node))
 
-                    # Queue grandchildren by randomly interleaving them into the
-                    # queue while maintaining queue and grandchild order.
-                    grandchildren = [
-                        (child, depth + 2)
-                        for child in _nondeterministic_children(child)
+            if not visit_children:
+                # Queue children for later by randomly interleaving them into the
+                # queue while maintaining queue and child order. Just appending
+                # them would rule out orderings that are allowed.
+                later = [(child, depth + 1) for child in children]
+                queue = deque(
+                    [
+                        next(n)
+                        for n in random.sample(
+                            [iter(queue)] * len(queue) + [iter(later)] * len(later),
+                            len(queue) + len(later),
+                        )
                     ]
+                )
+                continue
 
-                    queue = deque(
-                        [
-                            next(n)
-                            for n in random.sample(
-                                [iter(queue)] * len(queue)
-                                + [iter(grandchildren)] * len(grandchildren),
-                                len(queue) + len(grandchildren),
-                            )
-                        ]
-                    )
-                else:
-                    queue.append((child, depth + 1))
+            for child in children:
+                self._check_depth(child, depth + 1)
+                yield child
+
+                # Queue grandchildren by randomly interleaving them into the
+                # queue while maintaining queue and grandchild order.
+                grandchildren = [
+                    (child, depth + 2)
+                    for child in _nondeterministic_children(child)
+                ]
+
+                queue = deque(
+                    [
+                        next(n)
+                        for n in random.sample(
+                            [iter(queue)] * len(queue)
+                            + [iter(grandchildren)] * len(grandchildren),
+                            len(queue) + len(grandchildren),
+                        )
+                    ]
+                )
 
     def _check_depth(self, node: JSONPathNode, depth: int) -> None:
         """Raise if _node_ is an array or object nested deeper than the limit.
